@@ -1,0 +1,4 @@
+//! Verification hook (cargo feature `verif`, off by default): the in-process entry points of the
+//! rename and references handlers, `rename(analysis, file_id, position, new_name)` and
+//! `references(analysis, file_id, position, include_declaration)`. Adds no behaviour.
+pub use crate::handlers::{verif_references as references, verif_rename as rename};
